@@ -146,13 +146,6 @@ theorem checkTotal_sound (ref : RefTable) (h : checkTotal ref = true) :
       simp [ho] at h1
       exact ⟨fun h2 => by simp [h1] at h2, fun _ => ⟨i, L, rfl⟩⟩
 
-/-- the release column of every reference packet is exactly the release list (minus 47 for the
-exception), so a release has at most one row and rows are in release order -/
-def checkColumnsRef (ref : RefTable) : Bool :=
-  decide (ref.map (fun e => e.1) = Ref.core.map fun c => c.1) &&
-  ref.all fun e =>
-    decide (e.2.map (fun r => r.1) = Ref.releases.filter fun rel => !isException e.1 rel)
-
 /-- forget the field names of a reference row / entry -/
 def eraseRow (r : NRow) : C07.RefRow := (r.1, r.2.1, r.2.2.map fun f => f.2)
 def eraseEntry (e : String × List NRow) : String × List C07.RefRow := (e.1, e.2.map eraseRow)
